@@ -387,7 +387,7 @@ def check_universe(ctx, name, U, full, triples, bounds, only=None, coverage=Fals
 def run(ctx):
     q = ctx.quick
     # (universe, full lub/glb quantification in T1, third-kind rows, compound bound queries)
-    plan = [("U0", False, False, False)] if q else [("U1", True, True, True)] + [(u, True, False, True) for u in ("U2", "U3", "U4", "U5")]
+    plan = [("U0", False, False, False)] if q else [("U1", False, True, True)] + [(u, True, False, True) for u in ("U2", "U3", "U4", "U5")]
     stats = {}
     for i, (name, full, triples, bounds) in enumerate(plan):
         stats[name] = check_universe(ctx, name, UNIVERSES[name], full, triples, bounds, coverage=(not q and i == 0))
@@ -399,7 +399,7 @@ def run(ctx):
         "Non-trivial pair: two different kinds of one version with a <= b. Unspecified: == between kinds of different versions. "
         "Universes: %s." % (
             "quick: lub/glb leastness over one representative per Eq-class, justified by RepOK + EqCongruent" if q
-            else "lub/glb leastness over all kinds of the version, plus the cross-version bound laws",
+            else "U1: representatives; U2-U5: lub/glb leastness over all kinds of the version, plus the cross-version bound laws",
             "" if q else ", a<=a|b, b<=a|b, a&b<=a, a&b<=b on pairs of one version; U1: a|b<=c and c<=a&b for every third kind c of the version (all same-version triples)",
             ", ".join("%s=%s" % (p[0], UNIVERSES[p[0]]) for p in plan))
     )
